@@ -1250,6 +1250,9 @@ def parse_specs(paths):
             if cur is not None:
                 if st.startswith('@contract'): sect = ('contract',); continue
                 if st.startswith('@loop '): sect = ('loop', int(st.split()[1])); cur.loops.setdefault(sect[1], []); continue
+                if st.startswith('@ghost? '):
+                    # optional anchor (ghost UPDATES only, no assertions): if the call is absent the monitor simply never sees the event
+                    sect = ('ghost', st[len('@ghost? '):].strip()); cur.ghost.setdefault(sect[1], []); cur.optional = getattr(cur, 'optional', set()) | {sect[1]}; continue
                 if st.startswith('@ghost '): sect = ('ghost', st[len('@ghost '):].strip()); cur.ghost.setdefault(sect[1], []); continue
                 if st.startswith('@capture '): cur.capture.add(st.split()[1]); continue
                 if not st: continue
@@ -1629,7 +1632,11 @@ class Generator:
             for k in em.spec.loops:
                 if ('loop', k) not in em.used_anchors: raise SystemExit(f"cxx2c: spec {f.cname}: @loop {k} matches no loop (extraction break)")
             for a in em.spec.ghost:
-                if ('ghost', a) not in em.used_anchors: raise SystemExit(f"cxx2c: spec {f.cname}: @ghost {a} matches no anchor (extraction break)")
+                if ('ghost', a) not in em.used_anchors:
+                    if a in getattr(em.spec, 'optional', set()):
+                        if any('__CPROVER_assert' in t for t, _ in em.spec.ghost[a]): raise SystemExit(f"cxx2c: spec {f.cname}: optional @ghost? {a} must not contain assertions")
+                        continue
+                    raise SystemExit(f"cxx2c: spec {f.cname}: @ghost {a} matches no anchor (extraction break)")
             for a in em.spec.capture:
                 if ('capture', a) not in em.used_anchors: raise SystemExit(f"cxx2c: spec {f.cname}: @capture {a} matches no call (extraction break)")
         return lines
